@@ -959,6 +959,25 @@ class Interp:
                 return obj.kwargs
             if name == 'args':
                 return tuple(obj.args)
+        if isinstance(obj, ByteBuf):
+            if name == 'extend' and not obj.frozen:
+                def ext(it, a, k, obj=obj):
+                    it.note_mutation(obj, 'extend')
+                    x = a[0]
+                    if isinstance(x, ByteBuf):
+                        obj.parts.extend(x.parts)
+                    elif isinstance(x, (bytes, bytearray)):
+                        obj.parts.append(bytes(x))
+                    elif isinstance(x, (Opaque, SymRepeat)):
+                        obj.parts.append(x)
+                    else:
+                        it.type_error('can only extend with bytes')
+                    return None
+                return Builtin('bytearray.extend', ext)
+            if name == 'hex':
+                return Builtin('bytes.hex', lambda it, a, k: Opaque('str'))
+            py_raise('AttributeError', name) if obj.frozen else None
+            raise Unsupported('bytearray.%s' % name)
         if isinstance(obj, SymRepeat):
             raise Unsupported('attribute of symbolic repeat')
         # concrete python values: bound builtin method
@@ -1401,7 +1420,7 @@ class Interp:
             if h:
                 return h(self, f, args, kwargs)
             raise Unsupported('call of %r' % f)
-        if isinstance(f, (Sym, int, str, SObj)) or f is None:
+        if isinstance(f, (Sym, int, str, SObj, tuple, list, dict, bytes)) or f is None:
             self.type_error('object is not callable')
         raise Unsupported('call of %r' % (f,))
 
@@ -1536,7 +1555,10 @@ class Interp:
         else:
             raise Unsupported('augassign target')
         rhs = self.eval(s.value, env)
-        if isinstance(cur, (list, bytearray)) and isinstance(s.op, ast.Add):
+        if isinstance(cur, ByteBuf) and isinstance(s.op, ast.Add) and not cur.frozen:
+            self.call(self.getattr(cur, 'extend'), [rhs], {})
+            new = cur
+        elif isinstance(cur, (list, bytearray)) and isinstance(s.op, ast.Add):
             # in-place extension keeps identity
             self.note_mutation(cur, '+=')
             cur.extend(self.iterate(rhs))
@@ -1826,6 +1848,17 @@ class SymBytes:
         return SymBytes(pa + pb)
 
 
+class ByteBuf:
+    """bytearray / bytes built from parts (concrete bytes or opaque values with a `.length`)"""
+
+    def __init__(self, parts=None, frozen=False):
+        self.parts = list(parts or [])
+        self.frozen = frozen
+
+    def __deepcopy__(self, memo):
+        return self
+
+
 class CUInt:
     def __init__(self, value):
         self.value = value
@@ -1849,6 +1882,11 @@ def _b_len(it, args, kw):
         if it.truth(neg):
             return 0
         return it.binop(ast.Mult, c, n)
+    if isinstance(v, ByteBuf):
+        tot = 0
+        for p in v.parts:
+            tot = it.binop(ast.Add, tot, _b_len(it, [p], {}))
+        return tot
     if isinstance(v, SymBytes):
         tot = 0
         for p in v.parts:
@@ -2061,13 +2099,17 @@ def _b_bytes(it, args, kw):
         return bytes(v)
     if isinstance(v, (SymBytes, Opaque)):
         return v
+    if isinstance(v, ByteBuf):
+        return ByteBuf(v.parts, frozen=True)
     raise Unsupported('bytes(%r)' % (v,))
 
 
 def _b_bytearray(it, args, kw):
     if not args:
-        return bytearray()
-    return bytearray(args[0])
+        return ByteBuf()
+    if isinstance(args[0], (bytes, bytearray)):
+        return ByteBuf([bytes(args[0])])
+    raise Unsupported('bytearray(%r)' % (args[0],))
 
 
 def _b_minmax(fn):
